@@ -130,13 +130,13 @@ Proof.
     + (* by name *)
       destruct (has_wildcard name) eqn:Hw; cbn [negb].
       * mq_eval. rewrite exactly_self by reflexivity. reflexivity.
-      * destruct (new_topic_id cfg s1) as [s2 [i|]] eqn:Hn.
+      * destruct (register_topic cfg s1 name) as [s2 [i|]] eqn:Hn.
         -- mq_eval. rewrite exactly_self by reflexivity. reflexivity.
         -- rewrite sn_send_MQ.
            assert (Hst2 : gw_st s2 = gw_st s).
-           { pose proof (new_topic_id_st cfg s1) as Hst. rewrite Hn in Hst. exact Hst. }
-           assert (Hn0 : snd (new_topic_id cfg s) = None).
-           { rewrite <- (new_topic_id_last_sn cfg s (gw_now s)). fold s1. rewrite Hn. reflexivity. }
+           { pose proof (register_topic_st cfg s1 name) as Hst. rewrite Hn in Hst. exact Hst. }
+           assert (Hn0 : snd (register_topic cfg s name) = None).
+           { rewrite <- (register_topic_last_sn cfg s (gw_now s) name). fold s1. rewrite Hn. reflexivity. }
            rewrite Hn0.
            destruct (cstate_eqb (gw_st s) Asleep) eqn:Hsl.
            ++ (* asleep: the refusing SUBACK waits in the sleep buffer *)
@@ -176,12 +176,6 @@ Proof.
     rewrite exactly_one by reflexivity. reflexivity.
 Qed.
 
-Lemma get_by_id_objs s mid g t : get_by_id s mid = Some (g, t) -> gw_objs s !! g = Some t.
-Proof.
-  unfold get_by_id. destruct (gw_by_id s !! mid) as [g'|]; [|discriminate].
-  destruct (gw_objs s !! g') as [t'|] eqn:E; [|discriminate]. intros H. injection H as -> ->. exact E.
-Qed.
-
 Lemma chk_C03_mq cfg s m :
   Inv s -> wf_mq m ->
   chk_C03 cfg s (EvMq m) (obs_of_outs (snd (gw_step cfg s (EvMq m)))) = [].
@@ -210,7 +204,7 @@ Proof.
     destruct t as [mq st|m0 tid|m0 tid|m0 q st dat snpub rn]; try reflexivity.
     destruct codes as [|c [|c' cs]]; try reflexivity.
     assert (Htid : tid < 65536).
-    { apply get_by_id_objs in Hget. exact (proj2 HI g _ Hget). }
+    { exact (Inv_get_by_id s mid g _ HI Hget). }
     assert (Hc : c < 256).
     { apply is_byte_lt. exact (proj1 (List.Forall_forall _ _) Hcodes c (or_introl eq_refl)). }
     destruct (c <=? 2) eqn:Hc2.
